@@ -130,6 +130,17 @@ static int days(int y0, int y1) {
       basic::MonthDay md = BasicZoneProcessor::calcStartDayOfMonth((int16_t) y, (uint8_t) m, (uint8_t) dow, (int8_t) dom);
       printf("%d %d %d %d %d %d\n", y, m, dow, dom, (int) md.month, (int) md.day);
     }
+  // the same cases in another order (years descending, day-of-month outside, weekday innermost): a pure function gives the
+  // same answers whatever was asked before
+  for (int y = y1; y >= y0; y--) for (int m = 12; m >= 1; m--) for (int dom = 31; dom >= -31; dom--)
+    for (int dow = 7; dow >= 0; dow--) {
+      int dim = LocalDate::daysInMonth((int16_t) y, (uint8_t) m);
+      int lim = dom < 0 ? -dom : dom;
+      if (dow == 0 && (dom < 1 || dom > dim)) continue;
+      if (lim > dim) continue;
+      basic::MonthDay md = BasicZoneProcessor::calcStartDayOfMonth((int16_t) y, (uint8_t) m, (uint8_t) dow, (int8_t) dom);
+      printf("R %d %d %d %d %d %d\n", y, m, dow, dom, (int) md.month, (int) md.day);
+    }
   return 0;
 }
 
